@@ -376,7 +376,12 @@ class Module:
                 g["init"] = self._init(g["init"])
         self.functions = {}
         self.by_cname = {}
+        self._recognise_field_renames()
         from . import build
+        if self.renamed_fields:
+            rf = dict(getattr(build, "RENAMED_FIELDS", {}) or {})
+            rf.update(self.renamed_fields)
+            build.RENAMED_FIELDS = rf
         al = getattr(build, "ALIASES", {}) or {}
         self.renamed = {}
         for f in d["functions"]:
@@ -392,6 +397,37 @@ class Module:
                             l["fn"] = al[l["fn"]]
             self.functions[fn.name] = fn
             self.by_cname.setdefault(fn.cname, []).append(fn)
+
+    def _recognise_field_renames(self):
+        """A struct of the reference tree whose layout (field count, offsets, types) is unchanged but where some field carries a new name
+        that the reference did not have, while the reference name is gone: a pure field rename; the field is analysed under its reference
+        name.  Fields of the reference that are missing for any other reason are collected in self.missing_fields."""
+        import os
+        here = os.path.dirname(os.path.abspath(__file__))
+        try:
+            known = json.load(open(os.path.join(here, "known_types.json")))
+        except Exception:
+            known = {}
+        self.renamed_fields = {}
+        self.missing_fields = set()
+        for sty, ref in known.items():
+            cur = self.types.get(sty)
+            cn = Module.struct_cname(sty)
+            if not cur or cur.get("k") != "struct" or cur.get("opaque") or not cur.get("fields"):
+                continue            # type not used in this module
+            cf = cur["fields"]
+            refnames = {r[0] for r in ref}
+            curnames = {f.get("name") for f in cf}
+            same_layout = len(cf) == len(ref) and all(f["off"] == r[1] and f["ty"] == r[2] for f, r in zip(cf, ref))
+            if same_layout:
+                for f, r in zip(cf, ref):
+                    if f.get("name") != r[0] and f.get("name") not in refnames and r[0] not in curnames:
+                        self.renamed_fields[(cn, r[0])] = f.get("name")
+                        f["name"] = r[0]
+                curnames = {f.get("name") for f in cf}
+            for r in ref:
+                if r[0] not in curnames:
+                    self.missing_fields.add((cn, r[0]))
 
     def _init(self, o):
         k = o["k"]
